@@ -60,6 +60,38 @@ def names(ctx, model):
                      f"it is called", expr=f"{fn}: {nm}", file=f"src/ckl/modules/{fn}", line=line)
 
 
+def bound_names(ctx, model, rule="C19.names", prop="C19", only=None):
+    """A bundled module that exports a native under a second name may invent a new name for it (bit_and_32), but a
+    name that IS a native's own name must be bound to that native: `bind_native("find", "find_last")` would hand out
+    the first-occurrence search under the name of the last-occurrence one."""
+    from .common import native_registry
+    reg = native_registry(model, prop)
+    if len(reg) < 100:
+        ctx.broken("bind_native", f"only {len(reg)} native registrations could be extracted")
+    n = 0
+    for fn, (src, _) in sorted(model.ckl_modules.items()):
+        try:
+            toks = cklsrc.tokenize(src)
+        except cklsrc.CklTokenError as e:
+            ctx.broken(f"modules/{fn}", str(e))
+        lit, _nonlit = cklsrc.bind_native_calls(toks)
+        for native, alias, line in lit:
+            n += 1
+            if alias is None or alias == native or (only and alias not in only and native not in only):
+                continue
+            ok = alias not in reg or reg.get(alias) == reg.get(native)
+            ctx.ob(rule, f"modules/{fn}: bind_native({native!r}, {alias!r}) does not take another native's name",
+                   ok)
+            if not ok:
+                ctx.fail(rule, f"modules/{fn}", None,
+                         f"bind_native({native!r}, {alias!r}) exports the native `{native}` ({reg.get(native)}) under "
+                         f"the name of a different native `{alias}` ({reg[alias]}): callers of {fn[:-4].capitalize()}->"
+                         f"{alias} get the other function", expr=f"{fn}: {native} as {alias}",
+                         file=f"src/ckl/modules/{fn}", line=line)
+    if n < 100:
+        ctx.broken("modules/*.ckl", f"only {n} bind_native calls found in the bundled modules")
+
+
 def list_accumulators(ctx, model):
     """Library code: a LIST accumulator (`def R = []`) grown inside a loop with `R = e + R` / `R = R + e`, e being the
     loop element.  `+` is overloaded by the kinds of BOTH operands: an element that is itself a list / set is spliced
@@ -102,6 +134,7 @@ def list_accumulators(ctx, model):
 def run(ctx):
     model = ctx.model
     names(ctx, model)
+    bound_names(ctx, model)
     list_accumulators(ctx, model)
     # ---------------------------------------------------------------- pow
     fp = model.method(P, "FuncPow", "execute")
